@@ -263,6 +263,12 @@ func (v *Validator) GetDelegationFrom(d common.Address) *DelegationFrom {
 }
 
 func (v *Validator) UpdateDelegationFrom(d *DelegationFrom) (flag params.CurdFlag) {
+	// copy on write: after PartialCopy the slice is shared with the record this one was copied from
+	// (which the journal keeps for reverting), so it must not be modified in place.
+	own := make(DelegationFroms, len(v.Delegations), len(v.Delegations)+1)
+	copy(own, v.Delegations)
+	v.Delegations = own
+
 	empty := d.Empty()
 	i := v.Delegations.Search(d.Delegator)
 	oldLen := v.Delegations.Len()
